@@ -46,7 +46,21 @@ RULE = ("type-directed constructions through the public builders only: P(...), P
         "CounterfactualVariable.to_y0 with one and with several interventions; the level-2 `P[..](..)` / `PP[..][..](..)` print vs "
         "mixed worlds (tags `shape`, `site …` computed on the built object); 1.3% constructions OUTSIDE the quantifier that write "
         "a name twice (exercise `namesOnce` false; the property's oracle is not applied to them); "
-        "names from the parser's table incl. digits, underscores, Pi, π. Corpus: README/paper estimands "
+        "every public operator is also used to BUILD (tags op_*, counted on the construction tree): `@` applied to a finished "
+        "P(..) / PP[..](..) and to a Distribution inside the call (`P(Y | Z) @ (X, +W)`, `P((Y & Z) @ X)`, also among other "
+        "arguments and after a P[..] subscript), `|` with a `&`-joint on the right (`A | B & C`), chained `|`, `&` with a tuple "
+        "on the right and `&` applied to a conditional, unary operators on a finished counterfactual variable (`-(Y @ X)`, then "
+        "`@` again) and on an already marked variable (`~+Y`, `- -Y`); the forms the builders reject (`Sum @ X`, `A & (B & C)`, "
+        "`-(A | B)`, …) are in the malformed stream; "
+        "names: 70% of the pools from 8 common letters (+ one of 12 other spellings), 30% drawn uniformly from the WHOLE parser "
+        "table (546 names: 24 letters, Pi, π; bare, with a digit, with _digit; 45% of these pools hold several spellings of one stem, "
+        "X / X1 / X_1; Pi / π forms as ordinary variables and any Pi / π form as a population), plus a deterministic NAME SWEEP: for "
+        "every name of the table `P(<name>)` and the name in one (quick) / each (thorough) of seven other roles (parent, "
+        "subscript of a variable, Sum range, Q codomain, P[+..] subscript, population, marked child) next to its neighbour in the "
+        "table; a pseudo case `census` reports how many table names the run drew and the rarest name's count; "
+        "sizes: 6% of the distributions have 4-6 children, 6% 3-4 parents, 6% of the Sums 4-5 ranges, 8% of the P[..] 4-5 "
+        "subscripts, 5% of the counterfactual variables 4-5 interventions, Q factors up to 4 + 5 variables (tags size_*). "
+        "Corpus: README/paper estimands "
         "and the F4/F5 witnesses. Token-string stream: printed texts with 0-3 token mutations, Python's parser vs PyParse. "
         "A case is non-trivial when the built object has >= 2 leaves and contains a product, a sum or a fraction.")
 ASSUMPTIONS = [
